@@ -9,7 +9,7 @@ import YaegiVerif.Generated.C01
      y = level-1 machine (Model/Cfg.lean), g = Go big-step semantics (Spec/GoCore.lean),
      z = slot-level machine (Model/CfgSlots.lean) over `expand nv (compileProg …)`, nv = 1 + largest variable index
    EXPR  = (lit n) | (var i) | (bin add|sub|mul|and|or|xor|quo|rem a b) | (neg a) | (cpl a)
-   BEXPR = (cmp eq|ne|lt|le|gt|ge a b) | (not a) | (land a b) | (lor a b)
+   BEXPR = (cmp eq|ne|lt|le|gt|ge a b) | (not a) | (land a b) | (lor a b) | (alt a b)   -- alt: `case a, b:` of a tagless switch
    STMT  = skip | brk | cont | (brkL n) | (contL n)   -- break L / continue L, L = n-th enclosing loop, 0 = innermost
          | (seq a b) | (assign i e) | (print e) | (ite c t e) | (loop c body post)
          | (ret e) | (call x g e…)   -- x = f_g(e…); parameters are the callee's variables 0…
@@ -29,37 +29,42 @@ partial def parseExpr : Sexp → Option Expr
     some (.bin o (← parseExpr a) (← parseExpr b))
   | _ => none
 
-partial def parseB : Sexp → Option BExpr
+/-- `ch`: how `(alt a b)` — a case list of a tagless switch — is read: chained (`a || b`), or the first condition only -/
+partial def parseB (ch : Bool) : Sexp → Option BExpr
   | .list [.atom "cmp", .atom op, a, b] => do
     let o ← match op with
       | "eq" => some CmpOp.eq | "ne" => some .ne | "lt" => some .lt | "le" => some .le
       | "gt" => some .gt | "ge" => some .ge | _ => none
     some (.cmp o (← parseExpr a) (← parseExpr b))
-  | .list [.atom "not", a] => (parseB a).map .not
-  | .list [.atom "land", a, b] => do some (.land (← parseB a) (← parseB b))
-  | .list [.atom "lor", a, b] => do some (.lor (← parseB a) (← parseB b))
+  | .list [.atom "not", a] => (parseB ch a).map .not
+  | .list [.atom "land", a, b] => do some (.land (← parseB ch a) (← parseB ch b))
+  | .list [.atom "lor", a, b] => do some (.lor (← parseB ch a) (← parseB ch b))
+  -- `case a, b:` of a tagless switch (only at the top of a clause condition): chained as cfg.go does since 3b98047,
+  -- or the first condition only (F53); the Go semantics always chains, the model follows the extracted fact
+  | .list [.atom "alt", a, b] =>
+    if ch then do some (.lor (← parseB ch a) (← parseB ch b)) else parseB ch a
   | _ => none
 
 mutual
-partial def parseStmt : Sexp → Option Stmt
+partial def parseStmt (ch : Bool) : Sexp → Option Stmt
   | .atom "skip" => some .skip
   | .atom "brk" => some .brk
   | .atom "cont" => some .cont
   | .list [.atom "brkL", n] => n.nat?.map .brkL
   | .list [.atom "contL", n] => n.nat?.map .contL
-  | .list [.atom "seq", a, b] => do some (.seq (← parseStmt a) (← parseStmt b))
+  | .list [.atom "seq", a, b] => do some (.seq (← parseStmt ch a) (← parseStmt ch b))
   | .list [.atom "assign", i, e] => do some (.assign (← i.nat?) (← parseExpr e))
   | .list [.atom "print", e] => do some (.print (← parseExpr e))
-  | .list [.atom "ite", c, t, e] => do some (.ite (← parseB c) (← parseStmt t) (← parseStmt e))
-  | .list [.atom "loop", c, b, p] => do some (.loop (← parseB c) (← parseStmt b) (← parseStmt p))
-  | .list (.atom "switch" :: cs) => do some (.switch (← parseClauses cs))
+  | .list [.atom "ite", c, t, e] => do some (.ite (← parseB ch c) (← parseStmt ch t) (← parseStmt ch e))
+  | .list [.atom "loop", c, b, p] => do some (.loop (← parseB ch c) (← parseStmt ch b) (← parseStmt ch p))
+  | .list (.atom "switch" :: cs) => do some (.switch (← parseClauses ch cs))
   | .list [.atom "ret", e] => do some (.ret (← parseExpr e))
   | .list (.atom "call" :: x :: g :: args) => do some (.call (← x.nat?) (← g.nat?) (← args.mapM parseExpr))
   | _ => none
-partial def parseClauses : List Sexp → Option Clauses
+partial def parseClauses (ch : Bool) : List Sexp → Option Clauses
   | [] => some .nil
   | .list [.atom "c", c, b, f] :: rest => do
-    some (.cons (← parseB c) (← parseStmt b) (← f.bool?) (← parseClauses rest))
+    some (.cons (← parseB ch c) (← parseStmt ch b) (← f.bool?) (← parseClauses ch rest))
   | _ => none
 end
 
@@ -83,8 +88,9 @@ def showOut (vs : List Val) : String := ",".intercalate (vs.map fun v => toStrin
 def handle (args : List Sexp) : String :=
   match args with
   | [.atom "run", fuel, .list (.atom "funs" :: fbodies), prog] =>
-    (match fuel.nat?, parseStmt prog, fbodies.mapM parseStmt with
-     | some f, some p, some fs =>
+    let ch := Clos.factIs Generated.C01.mechFacts "switchIfStmt chains every condition of a case list"
+    (match fuel.nat?, parseStmt ch prog, fbodies.mapM (parseStmt ch), parseStmt true prog, fbodies.mapM (parseStmt true) with
+     | some f, some p, some fs, some pS, some fsS =>
        if !(closed 0 p && fs.all (closed 0)) then "bad-op" else
        let st0 : St := { vars := fun _ => 0, out := [] }
        let code := compileProg fs p
@@ -93,7 +99,7 @@ def handle (args : List Sexp) : String :=
          | some (.done s) => "normal:" ++ showOut s.out
          | some (.panicked s) => "panic:" ++ showOut s.out
          | none => "fuel:"
-       let g := match exec fs f p st0 with
+       let g := match exec fsS f pS st0 with   -- the Go semantics: case lists always chained
          | some (.panic, s) => "panic:" ++ showOut s.out
          | some (_, s) => "normal:" ++ showOut s.out
          | none => "fuel:"
@@ -107,7 +113,7 @@ def handle (args : List Sexp) : String :=
          | some (.panicked out) => "panic:" ++ showOut out
          | none => "fuel:"
        s!"y={y} g={g} z={z} n={code.length} n2={code2.length} nv={nv}"
-     | _, _, _ => "bad-op")
+     | _, _, _, _, _ => "bad-op")
   | _ => "bad-op"
 
 /-! ## closure fragment (Spec/GoClosure.lean, Model/Closures.lean)
